@@ -30,6 +30,7 @@ import (
 	"net"
 	"strings"
 	"sync"
+	"sync/atomic"
 	"testing"
 	"time"
 
@@ -195,8 +196,15 @@ func (n *caseNet) dial(addr string) (net.Conn, error) {
 	} else {
 		a = n.newAttemptLocked(false)
 	}
+	abort := !n.warming && n.cfg.Body == bodyStream && a.idx >= 1
 	n.mu.Unlock()
 	if a.kind == kDialErr {
+		return nil, errInjectedDial
+	}
+	if abort {
+		// A second attempt with a body stream is already the refutation (it is recorded as an
+		// attempt start). Re-sending a consumed stream can leave both ends waiting for each other,
+		// so the case is ended here: a dial error is never retried.
 		return nil, errInjectedDial
 	}
 	c, s := net.Pipe()
@@ -867,9 +875,15 @@ func TestC19(t *testing.T) {
 	var diffMu sync.Mutex
 	var diffs []map[string]any
 
+	var hung atomic.Int32
 	handle := func(i int, cfg caseCfg, ev func(string, int)) {
+		if hung.Load() > 8 {
+			ev("skipped_after_repeated_hangs", 1)
+			return
+		}
 		o := runCase(cfg)
 		if o.Hung {
+			hung.Add(1)
 			r.Inconclusive(fmt.Sprintf("case %d: watchdog fired (%v)", i, cfg.describe()))
 			return
 		}
